@@ -48,7 +48,10 @@ impl NodeStamp {
         self.0 = if self.0 < i16::MAX {
             -self.0 - 1
         } else {
-            -self.0
+            // The generation counter is exhausted: retire the slot for good
+            // (`i16::MIN` is not `reuseable()`), so that no `NodeId` is ever
+            // issued twice.
+            i16::MIN
         };
     }
 
